@@ -62,7 +62,13 @@ func HeaderCatalogue() *Request {
 			WithHeaders(&Header{Name: "X-A", Type: "integer", Required: true}, &Header{Name: "X-B", Type: "string", Format: "date", Required: true},
 				&Header{Name: "X-C", Type: "boolean", Required: true}),
 	).WithHeaders(&Header{Name: "X-S", Type: "string", Format: "email", Required: true})
-	f.Services = []*Service{types, merge, multi}
+	// header names that HTTP itself gives a meaning to (the servers enforce them like any other declared header)
+	named := Svc("Named", "/n",
+		RPC("Acc", pkg+".Req", pkg+".Resp", "POST", "/acc").WithHeaders(&Header{Name: "Accept", Type: "string", Required: true}),
+		RPC("Cook", pkg+".Req", pkg+".Resp", "POST", "/cook").WithHeaders(&Header{Name: "Cookie", Type: "string", Required: true}, &Header{Name: "If-Match", Type: "string", Required: true}),
+		RPC("Lower", pkg+".Req", pkg+".Resp", "POST", "/lower").WithHeaders(&Header{Name: "accept-language", Type: "string", Required: true}),
+	).WithHeaders(&Header{Name: "Authorization", Type: "string", Required: true})
+	f.Services = []*Service{types, merge, multi, named}
 	r := OneFile(id, pkg, f)
 	// not "server-only": since e425100 the Go client emits each header helper once and compiles
 	r.Tags = []string{"runtime", "headers"}
